@@ -52,6 +52,7 @@ func main() {
 
 func runAll() {
 	startWatchdog()
+	flushEach := os.Getenv("VERIF_FLUSH") != ""
 	in := bufio.NewReaderSize(os.Stdin, 1<<20)
 	out := bufio.NewWriterSize(os.Stdout, 1<<20)
 	defer out.Flush()
@@ -72,6 +73,9 @@ func runAll() {
 		exactFirst = prop.isSym("C01")
 		o := measure(op)
 		fmt.Fprintf(out, "(chk %s %s %s %s %s)\n", id, prop, op, o.obs, o.meta())
+		if flushEach {
+			out.Flush()
+		}
 		if prop.isSym("C01") {
 			if isOk(o.obs) {
 				noteAmplifier(op, o.alloc)
